@@ -552,7 +552,12 @@ def run_tier(tier, seed, workers, budget_s, n_worlds, n_exec, n_real, n_traced=0
                            dict(want=['geo_all_ge2_not_all']), dict(want=['explicit_tags']),
                            dict(want=['multi_media']), dict(want=['taper']), dict(want=['taper'], env='ideal'),
                            dict(kinds=['impedance', 'rlc', 'trap', 'laplace']),
-                           dict(kinds=['skin_r', 'insulation'])]
+                           dict(kinds=['skin_r', 'insulation']),
+                           # distributed loads on single objects of a connected structure
+                           dict(want=['skin_per_tag'], kinds=['skin_c'], env='free'),
+                           dict(want=['insulation_per_tag'], kinds=['insulation'], env='free'),
+                           dict(want=['skin_per_tag'], kinds=['skin_c'], env='ideal'),
+                           dict(want=['insulation_per_tag'], kinds=['insulation'], env='ideal')]
             for i in range(n_exec):
                 spec = dict(seed=seed * 1000003 + 500000 + i, scratch=scratch, real=(i < n_real))
                 if i < n_real:
